@@ -72,6 +72,9 @@ pub struct Case {
 
 impl Case {
     pub fn describe(&self) -> String {
+        if self.tcs.len() == 1 && self.tcs[0].starts_with("\u{1}T") {
+            return format!("unit term {} settings={}", &self.tcs[0][2..], self.cfg.describe());
+        }
         format!("test_cases={:?} settings={}", self.tcs, self.cfg.describe())
     }
 }
